@@ -365,7 +365,13 @@ func (r *Round) UpdateNotarizedBlock(b *block.Block) {
 
 /*GetNotarizedBlocks - return all the notarized blocks associated with this round */
 func (r *Round) GetNotarizedBlocks() []*block.Block {
-	return r.notarizedBlocks
+	// AddNotarizedBlock appends to and sorts the backing array in place: hand out a copy taken under the lock
+	r.mutex.RLock()
+	defer r.mutex.RUnlock()
+	if r.notarizedBlocks == nil {
+		return nil
+	}
+	return append([]*block.Block{}, r.notarizedBlocks...)
 }
 
 /*AddProposedBlock - this will be concurrent as notarization is recognized by verifying as well as notarization message from others */
